@@ -20,6 +20,9 @@ pub struct Case {
     pub s_other: Option<Ty>,
     pub form: u8,
     pub pick: Vec<u8>,
+    /// % 4 == 0: tuple values are assembled inside a generic function from one of their fields
+    /// (same static type as the literal, but the value carries the generic definition's tuple id)
+    pub generic: u8,
 }
 
 impl Case {
@@ -39,11 +42,13 @@ pub fn strategy() -> impl Strategy<Value = Case> {
         prop::option::weighted(0.2, tygen::ty(false)),
         0u8..4,
         prop::collection::vec(any::<u8>(), 8),
+        any::<u8>(),
     )
-        .prop_map(|(t, s_mut, s_other, form, pick)| Case { t, s_mut, s_other, form, pick })
+        .prop_map(|(t, s_mut, s_other, form, pick, generic)| Case { t, s_mut, s_other, form, pick, generic })
 }
 
 pub const MARK: &str = "Fin9";
+pub const GENERIC_BUILT: &str = "value-assembled-in-a-generic-function";
 
 pub struct Rendered {
     pub source: String,
@@ -53,6 +58,8 @@ pub struct Rendered {
     pub form: u8,
     pub t: String,
     pub s: String,
+    /// per value: it was assembled inside a generic function
+    pub generic_built: Vec<bool>,
 }
 
 /// Build the program for a case; None when T has too few first-order values.
@@ -87,19 +94,44 @@ pub fn render(c: &Case) -> Option<Rendered> {
         2 => lines.push("f = #'t { [~, 1] { | =[('s)y, _] => Y | N } }".into()),
         _ => {}
     }
+    // how each value is written: a literal, or assembled inside a generic function
+    let mut generic_built = vec![false; values.len()];
+    let mut texts: Vec<String> = Vec::new();
+    for (i, v) in values.iter().enumerate() {
+        match v {
+            V::Tup { name, fields } if c.generic % 4 == 0 && !fields.is_empty() => {
+                let k = (c.generic as usize / 4 + i) % fields.len();
+                let fs: Vec<String> = fields
+                    .iter()
+                    .enumerate()
+                    .map(|(j, (l, f))| {
+                        let val = if j == k { "~".to_string() } else { f.source() };
+                        match l {
+                            Some(l) => format!("{l}: {val}"),
+                            None => val,
+                        }
+                    })
+                    .collect();
+                lines.push(format!("mk{i} = #<'g>'g {{ {}[{}] }}", name.clone().unwrap_or_default(), fs.join(", ")));
+                texts.push(format!("{} mk{i}", fields[k].1.source()));
+                generic_built[i] = true;
+            }
+            _ => texts.push(v.source()),
+        }
+    }
     if form < 3 {
-        let calls: Vec<String> = values.iter().map(|v| format!("{} f", v.source())).collect();
+        let calls: Vec<String> = texts.iter().map(|v| format!("{v} f")).collect();
         lines.push(format!("[{}]", calls.join(", ")));
     } else {
         // one receiver per prefix would be costly: a single receiver takes the earliest member
         lines.push(format!("h = @#{{ ! [#'t {{ [] }}, 0] Ok, ! [#'s, #{MARK}] }}"));
-        for v in &values {
-            lines.push(format!("{} h", v.source()));
+        for v in &texts {
+            lines.push(format!("{v} h"));
         }
         lines.push(format!("{MARK} h"));
         lines.push("!h".into());
     }
-    Some(Rendered { source: lines.join(",\n"), values, member, form, t, s })
+    Some(Rendered { source: lines.join(",\n"), values, member, form, t, s, generic_built })
 }
 
 fn contains_empty_bin(v: &V) -> bool {
@@ -182,7 +214,10 @@ pub fn check_rendered(r: &Rendered, reg: &qrun::Registry) -> Result<Facts, (Stri
                     f.rejected += 1;
                 }
                 match (accepted, r.member[i]) {
-                    (true, Some(false)) => return Err(("accepted-non-member".into(), format!("variant {}: the test accepts {} which is not a value of 's\n{what}", run.name, r.values[i]))),
+                    (true, Some(false)) => {
+                        let sig = if r.generic_built.get(i).copied().unwrap_or(false) { format!("accepted-non-member:{GENERIC_BUILT}") } else { "accepted-non-member".to_string() };
+                        return Err((sig, format!("variant {}: the test accepts {} which is not a value of 's\n{what}", run.name, r.values[i])));
+                    }
                     (false, Some(true)) => return Err(("rejected-member".into(), format!("variant {}: the test rejects {} which is a value of 's (and was written as a literal, so its compile-time type is contained in 's)\n{what}", run.name, r.values[i]))),
                     _ => {}
                 }
@@ -199,8 +234,14 @@ pub fn check_rendered(r: &Rendered, reg: &qrun::Registry) -> Result<Facts, (Stri
                 None => HVal::Tuple(Some(MARK.into()), vec![]),
             };
             if val.canon_ids() != expected.canon_ids() {
-                let kind = if first.is_none() || !r.values.iter().any(|v| v_to_hval(v).canon_ids() == val.canon_ids()) { "receive-took-wrong-message" } else { "receive-took-wrong-message" };
-                return Err((kind.into(), format!("variant {}: the typed receive took {} but the earliest message that is a value of 's is {}\n{what}", run.name, val.full(), expected.full())));
+                // attributed to the recorded defect only if the message taken is a non-member that was
+                // assembled inside a generic function
+                let taken = r.values.iter().position(|v| v_to_hval(v).canon_ids() == val.canon_ids());
+                let kind = match taken {
+                    Some(i) if r.generic_built.get(i).copied().unwrap_or(false) && r.member[i] == Some(false) => format!("receive-took-wrong-message:{GENERIC_BUILT}"),
+                    _ => "receive-took-wrong-message".to_string(),
+                };
+                return Err((kind, format!("variant {}: the typed receive took {} but the earliest message that is a value of 's is {}\n{what}", run.name, val.full(), expected.full())));
             }
             if first.is_some() {
                 f.accepted += 1;
@@ -227,7 +268,7 @@ pub fn run(ctx: &Ctx) -> i32 {
                 stats.discard();
                 return Ok(());
             };
-            crumb(ctx.id, || json!({"kind": "c08", "source": r.source, "t": r.t, "s": r.s, "form": r.form, "values": r.values.iter().map(|v| v.source()).collect::<Vec<_>>(), "member": r.member}));
+            crumb(ctx.id, || json!({"kind": "c08", "source": r.source, "t": r.t, "s": r.s, "form": r.form, "values": r.values.iter().map(|v| v.source()).collect::<Vec<_>>(), "member": r.member, "generic_built": r.generic_built}));
             match check_rendered(&r, &reg) {
                 Ok(f) => {
                     if f.discarded {
@@ -243,6 +284,9 @@ pub fn run(ctx: &Ctx) -> i32 {
                     }
                     if case.t.has_partial() || case.s().has_partial() {
                         stats.class("partial-type");
+                    }
+                    if r.generic_built.iter().any(|b| *b) {
+                        stats.class("value-assembled-in-a-generic-function");
                     }
                     if f.has_istype && f.accepted > 0 && f.rejected > 0 {
                         stats.nontrivial(&r.source);
@@ -266,7 +310,7 @@ pub fn run(ctx: &Ctx) -> i32 {
                 signature: sig,
                 summary: truncate(&msg, 6000),
                 replay: match r {
-                    Some(r) => json!({"kind": "c08", "source": r.source, "t": r.t, "s": r.s, "form": r.form, "values": r.values.iter().map(|v| v.source()).collect::<Vec<_>>(), "member": r.member, "values_json": r.values.iter().map(v_json).collect::<Vec<_>>()}),
+                    Some(r) => json!({"kind": "c08", "source": r.source, "t": r.t, "s": r.s, "form": r.form, "values": r.values.iter().map(|v| v.source()).collect::<Vec<_>>(), "member": r.member, "generic_built": r.generic_built, "values_json": r.values.iter().map(v_json).collect::<Vec<_>>()}),
                     None => json!({"kind": "c08"}),
                 },
             });
@@ -274,16 +318,44 @@ pub fn run(ctx: &Ctx) -> i32 {
         out
     });
 
+    // recorded findings are re-established by a directed input on every run
+    {
+        let reg = qrun::registry();
+        for e in known.known_for(ctx.id) {
+            if e.signature == format!("accepted-non-member:{GENERIC_BUILT}") {
+                let src = "'u = T['int] | T['bin]\nwd = #'u { $ },\nmk = #<'g>'g { T[~] },\na = 5 mk wd,\na { | =T['bin] => 1 | =T['int] => 2 }";
+                match qrun::eval_source(src, &Modules::new(), &reg, 1000, 1_000_000) {
+                    qrun::Outcome::Val(v) if v.to_string() == "1" => stats.known_hit(&e.signature),
+                    other => println!("NOTE: known finding {} no longer reproduces (witness gives {other:?})", e.signature),
+                }
+            }
+            if e.signature == format!("receive-took-wrong-message:{GENERIC_BUILT}") {
+                let src = format!("mk = #<'g>'g {{ T[~] }},\nh = @#{{ ! [#(T['int] | T['bin]) {{ [] }}, 0] Ok, ! [#T['bin], #{MARK}] }},\n5 mk h,\n{MARK} h,\n!h");
+                let got = qrun::compile(&src, &Modules::new(), &reg).ok().map(|c| {
+                    let bc = c.program.to_bytecode(c.entry);
+                    let cfg = crate::sim::SimCfg { workers: 2, quanta: vec![1000], schedule: vec![], max_moves: 200_000, env_slow: 0 };
+                    let r = crate::sim::run_program(&bc, cfg, &reg, None, |_, _| Ok(()));
+                    r.result.map(|x| x.map(|v| v.to_string()).unwrap_or_else(|e| format!("{e:?}"))).unwrap_or_default()
+                });
+                match got.as_deref() {
+                    Some("T[5]") => stats.known_hit(&e.signature),
+                    other => println!("NOTE: known finding {} no longer reproduces (witness gives {other:?})", e.signature),
+                }
+            }
+        }
+    }
+
     finish(Report {
         ctx,
         stats: &stats,
         violations,
-        rule: "a generated scrutinee type 't (unions, named/unnamed tuples with labels, partials, recursive types), a test type 's = 't after 1-3 mutations or an independent type, up to 8 first-order values enumerated from 't and written as literals, and a test form: `=('s)y`, `='s`, a typed tuple pattern `=[('s)y, _]`, or a process that receives `! [#'s, #Fin9]` after the values were mailed to it in order; the verdict per value is compared with the model (inhabits(v, 's) over the same type trees): an accepted value must be a member, a member written as a literal must be accepted, the typed receive must take the earliest member; every program runs as compiled, tree-shaken, after a JSON round trip and merged into an environment behind three programs that register tuples of the same names in other shapes. evaluations = program runs; non-trivial = the compiled code contains an IsType and both verdicts occur; distinct by program text".into(),
+        rule: "a generated scrutinee type 't (unions, named/unnamed tuples with labels, partials, recursive types), a test type 's = 't after 1-3 mutations or an independent type, up to 8 first-order values enumerated from 't and written as literals (in a quarter of the cases tuple values are instead assembled inside a generic function from one of their fields), and a test form: `=('s)y`, `='s`, a typed tuple pattern `=[('s)y, _]`, or a process that receives `! [#'s, #Fin9]` after the values were mailed to it in order; the verdict per value is compared with the model (inhabits(v, 's) over the same type trees): an accepted value must be a member, a member written as a literal must be accepted, the typed receive must take the earliest member; every program runs as compiled, tree-shaken, after a JSON round trip and merged into an environment behind three programs that register tuples of the same names in other shapes. evaluations = program runs; non-trivial = the compiled code contains an IsType and both verdicts occur; distinct by program text".into(),
         assumptions: vec![
             "values are literals, so their compile-time type is contained in 's exactly when the value is a member; widening routes are covered by C13's paths".into(),
             "programs the compiler rejects (literal not accepted for 't, pattern statically impossible) are discarded".into(),
+            "recorded finding: a tuple assembled inside a generic function carries the generic definition's tuple id, whose type-variable fields the precomputed run-time table treats as matching anything; acceptances of such non-members are attributed to it (and only those), members must still be accepted".into(),
         ],
-        required_classes: vec!["verdict:accepted", "verdict:rejected", "form:=('s)y", "form:='s", "form:typed-tuple-pattern", "form:typed-receive", "recursive-scrutinee-type", "partial-type"],
+        required_classes: vec!["verdict:accepted", "verdict:rejected", "form:=('s)y", "form:='s", "form:typed-tuple-pattern", "form:typed-receive", "recursive-scrutinee-type", "partial-type", "value-assembled-in-a-generic-function"],
         started,
         technique: "proptest-generated (scrutinee type, test type, values, form) x packaging variants; oracle = inhabitation model over the generated type trees",
     })
@@ -324,6 +396,7 @@ pub fn replay(payload: &serde_json::Value) -> Result<(), String> {
         form: payload["form"].as_u64().unwrap_or(0) as u8,
         t: payload["t"].as_str().unwrap_or("").to_string(),
         s: payload["s"].as_str().unwrap_or("").to_string(),
+        generic_built: payload["generic_built"].as_array().map(|a| a.iter().map(|x| x.as_bool().unwrap_or(false)).collect()).unwrap_or_default(),
     };
     if r.values.is_empty() {
         // a breadcrumb (no structured values): only look for crashes
